@@ -233,7 +233,11 @@ func (w *world) startLeader() error {
 		return fmt.Errorf("leader partition: %v", err)
 	}
 	// the local replicator (leader's own storage) is left out: it only holds garbage collection back
-	if err := p.BuildReplicaForLeader(leaderID, []models.NodeID{followerID}); err != nil {
+	replicas := []models.NodeID{followerID}
+	if w.cfg.Local {
+		replicas = []models.NodeID{leaderID, followerID}
+	}
+	if err := p.BuildReplicaForLeader(leaderID, replicas); err != nil {
 		return fmt.Errorf("leader build replica: %v", err)
 	}
 	w.lpart = inner(p)
@@ -327,6 +331,11 @@ func (w *world) Enabled() []string {
 		evs = append(evs, "step")
 	}
 	evs = append(evs, "L.gc")
+	if w.cfg.Local {
+		if li := replica.VerifReplicatorInfoOf(w.lpart, leaderID); li.Exists && li.Consumed < replica.VerifLog(w.lpart).Queue().AppendedSeq() {
+			evs = append(evs, "L.local")
+		}
+	}
 	if !w.online {
 		evs = append(evs, "F.online")
 	}
@@ -503,6 +512,10 @@ func (w *world) Apply(ev string) (err error) {
 		if w.budget < b {
 			w.faults[stepFaultName[ev[5:]]] = true
 		}
+	case ev == "L.local":
+		// one step of the leader's local replicator: the payloads of this harness are not row blocks, the
+		// replicator ignores (= acknowledges) them - what matters here is that the local group's ack advances
+		replica.VerifReplicaStep(w.lpart, leaderID)
 	case ev == "L.gc":
 		if w.lpart.IsExpire() {
 			return fmt.Errorf("IsExpire answered true for the current family")
